@@ -7,6 +7,7 @@ import (
 	"github.com/verily-src/fhirpath-go/fhirpath/system"
 	"github.com/verily-src/fhirpath-go/internal/fhir"
 	"github.com/verily-src/fhirpath-go/internal/protofields"
+	"google.golang.org/protobuf/reflect/protoreflect"
 )
 
 var (
@@ -71,6 +72,9 @@ func TypeOf(input any) (TypeSpecifier, error) {
 	if protofields.IsCodeField(item) {
 		return TypeSpecifier{FHIR, "code"}, nil
 	}
+	if base, ok := componentType(item.ProtoReflect().Descriptor()); ok {
+		return TypeSpecifier{FHIR, base}, nil
+	}
 	return TypeSpecifier{FHIR, primitiveToLowercase(name)}, nil
 }
 
@@ -113,8 +117,10 @@ func (ts TypeSpecifier) parent() TypeSpecifier {
 		return TypeSpecifier{FHIR, "uri"}
 	case "Duration", "MoneyQuantity", "Age", "Count", "Distance", "SimpleQuantity":
 		return TypeSpecifier{FHIR, "Quantity"}
-	case "Timing", "Dosage", "ElementDefinition":
+	case "Timing", "Dosage", "ElementDefinition", "MarketingStatus", "Population", "ProdCharacteristic", "ProductShelfLife", "SubstanceAmount":
 		return TypeSpecifier{FHIR, "BackboneElement"}
+	case "BackboneElement":
+		return TypeSpecifier{FHIR, "Element"}
 	case "Bundle", "Binary", "Parameters", "DomainResource":
 		return TypeSpecifier{FHIR, "Resource"}
 	case "Element":
@@ -135,4 +141,18 @@ func isBaseType(name string) bool {
 		return true
 	}
 	return false
+}
+
+// componentType returns the FHIR type of a component nested in a resource or
+// datatype (Patient.contact, Timing.repeat): such elements have no type name of
+// their own, they are BackboneElements when they carry modifierExtension and
+// plain Elements otherwise.
+func componentType(descriptor protoreflect.MessageDescriptor) (string, bool) {
+	if _, nested := descriptor.Parent().(protoreflect.MessageDescriptor); !nested {
+		return "", false
+	}
+	if descriptor.Fields().ByName("modifier_extension") != nil {
+		return "BackboneElement", true
+	}
+	return "Element", true
 }
